@@ -322,6 +322,14 @@ def run(ctx):
         sites += [(fn, n, "call") for fn in stc.methods.values() for n in walk_no_nested(fn.node) if isinstance(n, ast.Call) and isinstance(n.func, ast.Attribute) and n.func.attr in ("append", "extend", "insert", "pop", "clear") and is_self_attr(n.func.value, attr_)]
         for fn, n, k in sites:
             ctx.ob("R-WRITERS", "C05.5", fn, f"the integrator's `{attr_}` is written only by {sorted(who)}", fn.name in who, f"`{src(n)[:60]}` ({k})", node=n)
+    # ---- C05.6 the reported evidence error survives a constant factor in the likelihood ---------------------------------
+    # result["log_evidence_error"] of the importance sampler is sqrt(sum((Z_i - Z)^2) / n(n-1)) / Z: the Z_i leave log space,
+    # and only np.longdouble keeps them finite for |log Z| beyond ~700 (in float64 they all underflow to 0 and the reported
+    # error collapses to 1/sqrt(n-1), a plausible finite number).  Shared with C15.5.
+    from .C15 import wide_exp_rule as _wide05
+
+    _wide05(ctx, "C05.6")
+    ctx.floor("C05.6", 2)
     ctx.assumptions += ["numeric equality on real runs and sample counts are not decided; only which state object each reported quantity is read from"]
 
 
